@@ -145,9 +145,13 @@ class PortfolioSetup(Contract):
             yield ('C15.refuses_only_too_short_x', ctx['nx'] < nv_)
             return
         if outcome[0] != 'return':
-            yield ('C07.asm.no_raise', False if outcome[0] == 'raise' else Havoc(outcome[1]))
+            for nm_ in ('C07.asm.no_raise', 'C01.asm.no_raise', 'C10.asm.no_raise'):
+                yield (nm_, False if outcome[0] == 'raise' else Havoc(outcome[1]))
             return
         res = outcome[1]
+        # C10: the portfolio object keeps no state between set-ups (it only installs the grid it was given)
+        own_writes = sorted({str(what) for (o, what, ln, md) in I.writes if o is ctx['self_obj']})
+        yield ('C10.asm.portfolio_object_keeps_no_state_between_set_ups', all(w == 'timegrid' for w in own_writes))
         offs = [0]
         for F in Fs:
             offs.append(offs[-1] + F['n'])
